@@ -24,6 +24,9 @@ def setup_env(repo, home=None):
     if _HOME is None:
         _HOME = home or tempfile.mkdtemp(prefix="ssepy-home.", dir=os.environ.get("TMPDIR", "/tmp"))
         os.environ["HOME"] = _HOME
+        # the repo modules create these at import time without exist_ok: avoid a race between forked workers
+        os.makedirs(os.path.join(_HOME, ".sse", "log"), exist_ok=True)
+        os.makedirs(os.path.join(_HOME, ".sse", "client"), exist_ok=True)
         if repo not in sys.path:
             sys.path.insert(0, repo)
         import logging
